@@ -407,3 +407,78 @@ def crlf_family(tier, rng, corpus):
             out.append((f"crlf:corpus:{name}:crlf+compile-error", crlf(text.rstrip("\n") + "\nx = 1 +")))
             out.append((f"crlf:corpus:{name}:crlf+run-error", crlf(text.rstrip("\n") + "\nnull.nope()\n")))
     return out
+
+
+# ------------------------------------------------------------------------------------------
+# re-entrancy: every function of the container / iterator / string modules, given a callback that
+# reads or writes the receiver itself, in every argument position and with growing / shrinking /
+# equal size arguments.  Functions that take no callback just reject the arguments.
+
+RECEIVERS = {
+    # kind: (constructor lines, [read touches], [write touches])
+    "list": (["z = [3, 1, 2]"],
+             ["size z", "z[0]", "z.first()", "z.contains 1", "'{z}'", "z.to_tuple()", "z.get 1", "z == z"],
+             ["if (size z) < 8\n    z.push 0", "z.pop()", "z.clear()", "z.sort()", "if (size z) > 0\n    z[0] = 9",
+              "z.resize 1", "z.reverse()", "z.fill 7", "z.insert 0, 5", "if (size z) < 8\n    z.extend (1, 2)"]),
+    "map": (["z = {b: 2, a: 1, c: 3}"],
+            ["size z", "z.get 'a'", "z.contains_key 'a'", "z.keys().to_tuple()", "'{z}'", "z.get_index 0", "z == z"],
+            ["if (size z) < 8\n    z.insert 'k{size z}', 1", "z.remove 'a'", "z.clear()", "z.sort()", "z.b = 20",
+             "z.update 'a', |v| 5", "z.extend {q: 1}"]),
+    "tuple": (["inner = [1, 2]", "z = (inner, [3], 4)"],
+              ["size z", "z[0]", "z.first()", "'{z}'", "z.contains 4"],
+              ["if (size inner) < 8\n    inner.push 0", "inner.clear()"]),
+    "string": (["z = 'héllo wörld'"], ["size z", "z[0]", "z.chars().to_tuple()", "'{z}'"], []),
+    "iter-of-list": (["l = [3, 1, 2]", "z = l.iter()"],
+                     ["z.next()", "size l", "copy z", "z.copy().to_tuple()"],
+                     ["if (size l) < 8\n    l.push 0", "l.clear()", "l.pop()", "z.next_back()", "z.consume()"]),
+    "iter-of-map": (["m = {b: 2, a: 1}", "z = m.iter()"],
+                    ["z.next()", "size m"],
+                    ["if (size m) < 8\n    m.insert 'k{size m}', 1", "m.clear()", "m.remove 'a'"]),
+}
+MODULE_RECEIVERS = {
+    "list": ["list"], "map": ["map"], "tuple": ["tuple"], "string": ["string"],
+    "iterator": ["list", "map", "tuple", "string", "iter-of-list", "iter-of-map"],
+}
+RETURNS = ["true", "false", "1", "null", "a"]
+ARG_SHAPES = [["cb"], ["cb", "cb"]] + [[x, "cb"] for x in ("0", "1", "3", "5", "'a'", "null", "'k'")] + \
+    [["cb", x] for x in ("0", "2", "5")] + [[x, y, "cb"] for x in ("'a'", "0", "5") for y in ("0", "null")]
+
+
+QUICK_SHAPES = [["cb"], ["cb", "cb"], ["0", "cb"], ["1", "cb"], ["3", "cb"], ["5", "cb"], ["'a'", "cb"], ["cb", "2"],
+                ["'a'", "0", "cb"]]
+
+
+def reentrant_script(recv, fn, touch, ret, shape):
+    ctor = RECEIVERS[recv][0]
+    lines = list(ctor) + ["cb = |a...|", "  " + touch, "  " + ret,
+                          "r = try", "  z." + fn + " " + ", ".join(shape), "catch e", "  null",
+                          "try", "  r.take(6).to_tuple()", "catch e", "  null"]
+    return "\n".join(lines) + "\n"
+
+
+def reentrant_family(tier, rng, entries):
+    """entries: the prelude's entry points as listed by kh_safe.  returns [(origin, entry, src)] where
+    `entry` = 'reentrant:<module>.<fn>' is what the known-class table is keyed by"""
+    out = []
+    for e in entries:
+        module, fn = e["module"], e["name"]
+        if e["kind"] != "fn" or module not in MODULE_RECEIVERS:
+            continue
+        for recv in MODULE_RECEIVERS[module]:
+            _, reads, writes = RECEIVERS[recv]
+            touches = [("read", t) for t in reads] + [("write", t) for t in writes]
+            combos = [(k, t, ret, shape) for k, t in touches for ret in RETURNS for shape in ARG_SHAPES]
+            if tier == "quick":
+                # every touch with the main shapes once (return value rotating), plus a seeded sample of the rest
+                picked = [(k, t, RETURNS[(i + j) % len(RETURNS)], shape)
+                          for i, (k, t) in enumerate(touches) for j, shape in enumerate(QUICK_SHAPES)]
+                picked += [rng.choice(combos) for _ in range(20)]
+            else:
+                # every touch x shape with a rotating return value, plus a seeded sample of the full product
+                picked = [(k, t, RETURNS[(i + j) % len(RETURNS)], shape)
+                          for i, (k, t) in enumerate(touches) for j, shape in enumerate(ARG_SHAPES)]
+                picked += [rng.choice(combos) for _ in range(400)]
+            for k, t, ret, shape in picked:
+                out.append((f"reentrant:{module}.{fn}:{recv}:{k}:{t.splitlines()[0]}:{ret}:{','.join(shape)}",
+                            f"reentrant:{module}.{fn}", reentrant_script(recv, fn, t, ret, shape)))
+    return out
